@@ -205,79 +205,96 @@ Qed.
 
 Definition in_int64 (z : Z) : Prop := - 2 ^ 63 <= z < 2 ^ 63.
 
-Lemma radix_value_nonneg : forall b ds acc, 0 <= b -> 0 <= acc -> radix_digits b ds -> 0 <= radix_value b ds acc.
+Lemma radix_digit_not_pm : forall b ds, radix_digits b ds -> ds <> [] ->
+  match ds with c :: _ => is_pm c = false | [] => True end.
 Proof.
-  induction ds as [|c ds IH]; intros acc Hb Ha H; [exact Ha|]. unfold radix_digits in H. simpl in H.
-  apply andb_true_iff in H as [Hc Hds]. cbn [radix_value]. apply IH; try assumption.
-  destruct (radix_digit c) as [d|] eqn:E; [|discriminate].
-  assert (0 <= d).
-  { unfold radix_digit in E. destruct (is_digit c) eqn:E1; [inversion E; unfold is_digit in E1; lia|].
-    destruct ((97 <=? c) && (c <=? 122)) eqn:E2; [inversion E; lia|].
-    destruct ((65 <=? c) && (c <=? 90)) eqn:E3; [inversion E; lia|discriminate]. }
-  nia.
+  intros b ds H Hne. destruct (radix_digits_chars _ _ H) as [_ Hh]. destruct ds as [|c ds]; [exact I|].
+  unfold is_pm. lia.
+Qed.
+
+(* x is not a digit of base 16 *)
+Lemma x_not_hex_digit : forall x, is_x x = true -> match radix_digit x with Some d => d <? 16 | None => false end = false.
+Proof. intros x H. unfold is_x in H. assert (x = 120 \/ x = 88) as [->| ->] by lia; reflexivity. Qed.
+
+Lemma parse_radix_digits : forall b k sg px ds, 2 <= b <= 36 -> SignOpt sg k -> RadixPrefix b px ->
+  radix_digits b ds -> ds <> [] -> parse_radix (sg ++ px ++ ds) b = Some (k * radix_value b ds 0).
+Proof.
+  intros b k sg px ds Hb Hsg Hpx Hds Hne. unfold parse_radix.
+  pose proof (radix_digit_not_pm _ _ Hds Hne) as Hpm.
+  assert (Hss : strip_sign (sg ++ px ++ ds) = (k, px ++ ds)).
+  { assert (Hh : match px ++ ds with c :: _ => c <> 45 /\ c <> 43 | [] => False end).
+    { inversion Hpx; subst; cbn [app]; [|lia]. destruct ds as [|c ds']; [contradiction|].
+      unfold is_pm in Hpm. lia. }
+    inversion Hsg; subst; try reflexivity. cbn [app]. destruct (px ++ ds) as [|c r]; [contradiction|].
+    unfold strip_sign. destruct Hh. replace (c =? 45) with false by lia. replace (c =? 43) with false by lia.
+    reflexivity. }
+  rewrite Hss. inversion Hpx as [|x H16 Hx]; subst; cbn [app].
+  - (* no prefix: the prefix test fails because x is not a digit *)
+    assert (Hu : match ds with
+                 | c0 :: c1 :: ((_ :: _) as r) => if (b =? 16) && (c0 =? 48) && is_x c1 then r else ds
+                 | _ => ds end = ds).
+    { destruct ds as [|c0 [|c1 [|c2 r]]]; try reflexivity.
+      destruct ((b =? 16) && (c0 =? 48) && is_x c1) eqn:E; [|reflexivity]. exfalso.
+      apply andb_true_iff in E as [E Ex]. apply andb_true_iff in E as [Eb _].
+      unfold radix_digits in Hds. cbn [forallb] in Hds.
+      apply andb_true_iff in Hds as [_ Hds]. apply andb_true_iff in Hds as [Hc1 _].
+      assert (b = 16) by lia. subst b. rewrite (x_not_hex_digit _ Ex) in Hc1. discriminate. }
+    rewrite Hu. destruct ds as [|c ds']; [contradiction|]. rewrite Hpm.
+    now rewrite (radix_val_spec _ _ 0 Hds).
+  - destruct ds as [|c ds']; [contradiction|]. rewrite Hx. cbn [Z.eqb Pos.eqb andb]. rewrite Hpm.
+    now rewrite (radix_val_spec _ _ 0 Hds).
 Qed.
 
 Lemma tonumber_base_complete : forall b s z, 2 <= b <= 36 -> b <> 10 ->
-  RadixNumeral b s z -> in_int64 z -> tonumber s (Some b) = Some (z, 0).
+  RadixNumeral b s z -> tonumber s (Some b) = Some (z, 0).
 Proof.
-  intros b s z Hb H10 H Hz. inversion H as [l sg k ds t Hl Ht Hsg Hds Hne]; subst.
+  intros b s z Hb H10 H. inversion H as [l sg k px ds t Hl Ht Hsg Hpx Hds Hne]; subst.
   unfold tonumber. replace (b =? 10) with false by lia.
-  destruct (radix_digits_chars _ _ Hds) as [Hnc Hhd].
-  assert (Hmid : nonspace_ends (sg ++ ds)).
+  destruct (radix_digits_chars _ _ Hds) as [Hnc _].
+  assert (Hmid : nonspace_ends (sg ++ px ++ ds)).
   { apply numchars_ends.
-    - intros Hn. apply app_eq_nil in Hn as [_ Hn]. contradiction.
-    - now rewrite forallb_app, (sign_numchars _ _ Hsg). }
-  replace (l ++ sg ++ ds ++ t) with (l ++ (sg ++ ds) ++ t) by now rewrite <- app_assoc.
+    - intros Hn. apply app_eq_nil in Hn as [_ Hn]. apply app_eq_nil in Hn as [_ Hn]. contradiction.
+    - rewrite !forallb_app, (sign_numchars _ _ Hsg), Hnc.
+      inversion Hpx; subst; [reflexivity|]. cbn. unfold numchar, is_space, is_x in *.
+      replace (negb ((9 <=? x) && (x <=? 13) || (x =? 32))) with true by lia. reflexivity. }
+  replace (l ++ sg ++ px ++ ds ++ t) with (l ++ (sg ++ px ++ ds) ++ t) by now rewrite <- !app_assoc.
   rewrite trim_space_app by assumption.
-  unfold go_parse_int. replace (negb ((2 <=? b) && (b <=? 36))) with false by lia.
-  assert (Hss : strip_sign (sg ++ ds) = (k, ds)).
-  { inversion Hsg; subst; try reflexivity. cbn [app]. destruct ds as [|c ds']; [contradiction|].
-    unfold strip_sign. destruct Hhd as [H43 H45].
-    replace (c =? 45) with false by lia. replace (c =? 43) with false by lia. reflexivity. }
-  rewrite Hss. destruct ds as [|c ds']; [contradiction|].
-  rewrite (radix_val_spec _ _ 0 Hds).
-  pose proof (radix_value_nonneg b (c :: ds') 0 ltac:(lia) ltac:(lia) Hds) as Hnn.
-  set (n := radix_value b (c :: ds') 0) in *. unfold in_int64 in Hz.
-  inversion Hsg; subst.
-  - replace (1 =? 1) with true by reflexivity. replace (n <? 2 ^ 63) with true by lia.
-    replace (1 * n) with n by lia. reflexivity.
-  - replace (1 =? 1) with true by reflexivity. replace (n <? 2 ^ 63) with true by lia.
-    replace (1 * n) with n by lia. reflexivity.
-  - replace (-1 =? 1) with false by reflexivity. replace (n <=? 2 ^ 63) with true by lia.
-    replace (-1 * n) with (- n) by lia. reflexivity.
+  now rewrite (parse_radix_digits b k sg px ds Hb Hsg Hpx Hds Hne).
 Qed.
 
 Lemma tonumber_base_sound : forall b s v, 2 <= b <= 36 -> b <> 10 ->
-  tonumber s (Some b) = Some v -> exists z, v = (z, 0) /\ RadixNumeral b s z /\ in_int64 z.
+  tonumber s (Some b) = Some v -> exists z, v = (z, 0) /\ RadixNumeral b s z.
 Proof.
   intros b s v Hb H10 H. unfold tonumber in H. replace (b =? 10) with false in H by lia.
-  destruct (go_parse_int (trim_space s) b) as [z|] eqn:EP; [|discriminate].
+  destruct (parse_radix (trim_space s) b) as [z|] eqn:EP; [|discriminate].
   inversion H; subst. exists z. split; [reflexivity|].
-  unfold go_parse_int in EP. replace (negb ((2 <=? b) && (b <=? 36))) with false in EP by lia.
+  unfold parse_radix in EP.
   destruct (trim_space_spec s) as (l & t & Hs & Hl & Ht).
   destruct (strip_sign (trim_space s)) as [k u] eqn:ESg.
   destruct (strip_sign_spec _ _ _ ESg) as (sg & Htr & Hsg).
-  destruct u as [|c u']; [discriminate|].
-  destruct (radix_val b (c :: u') 0) as [n|] eqn:ER; [|discriminate].
-  destruct (radix_val_sound _ _ _ _ ER) as [Hds Hn].
-  pose proof (radix_value_nonneg b (c :: u') 0 ltac:(lia) ltac:(lia) Hds) as Hnn.
-  assert (Hz : z = k * n /\ in_int64 z).
-  { unfold in_int64. inversion Hsg; subst k; cbn [Z.eqb Pos.eqb] in EP.
-    - destruct (n <? 2 ^ 63) eqn:E; inversion EP; subst; lia.
-    - destruct (n <? 2 ^ 63) eqn:E; inversion EP; subst; lia.
-    - destruct (n <=? 2 ^ 63) eqn:E; inversion EP; subst; lia. }
-  destruct Hz as [-> Hin]. split; [|exact Hin].
-  rewrite Hs, Htr, <- app_assoc, Hn. constructor; try assumption. discriminate.
+  set (u' := match u with
+             | c0 :: c1 :: ((_ :: _) as r) => if (b =? 16) && (c0 =? 48) && is_x c1 then r else u
+             | _ => u end) in *.
+  assert (Hpx : exists px, u = px ++ u' /\ RadixPrefix b px).
+  { subst u'. destruct u as [|c0 [|c1 [|c2 r]]]; try (exists []; split; [reflexivity|constructor]).
+    destruct ((b =? 16) && (c0 =? 48) && is_x c1) eqn:E; [|exists []; split; [reflexivity|constructor]].
+    apply andb_true_iff in E as [E Ex]. apply andb_true_iff in E as [Eb E0].
+    exists [c0; c1]. split; [reflexivity|]. replace c0 with 48 by lia. constructor; [lia|assumption]. }
+  destruct Hpx as (px & Hu & Hpx).
+  destruct u' as [|c r']; [discriminate|]. destruct (is_pm c); [discriminate|].
+  destruct (radix_val b (c :: r') 0) as [n|] eqn:ER; [|discriminate].
+  destruct (radix_val_sound _ _ _ _ ER) as [Hds Hn]. inversion EP; subst z n.
+  rewrite Hs, Htr, Hu, <- !app_assoc. constructor; try assumption. discriminate.
 Qed.
 
 Lemma tonumber_base_spec_lemma : forall b s v, 2 <= b <= 36 ->
   (tonumber s (Some b) = Some v <->
    if b =? 10 then Numeral s (fst v) (snd v)
-   else exists z, v = (z, 0) /\ RadixNumeral b s z /\ in_int64 z).
+   else exists z, v = (z, 0) /\ RadixNumeral b s z).
 Proof.
   intros b s [m e] Hb. destruct (b =? 10) eqn:E10.
   - unfold tonumber. rewrite E10. cbn [fst snd]. apply parse_exact_iff_lemma.
   - assert (b <> 10) by lia. split.
     + now apply tonumber_base_sound.
-    + intros (z & Hv & Hr & Hz). inversion Hv; subst. now apply tonumber_base_complete.
+    + intros (z & Hv & Hr). inversion Hv; subst. now apply tonumber_base_complete.
 Qed.
